@@ -26,8 +26,12 @@ static ssize_t rd_stub(int fd, char *buf, size_t len)
   memcpy(buf, in_s + in_pos, k); in_pos += k;
   return k;
 }
+/* short writes: a write() on a socket may legally take fewer bytes than offered; when armed, every call takes 1..7 bytes */
+static unsigned wshort;
+VQ_API void vq_remote_wshort(unsigned seed) { wshort = seed; }
 static ssize_t wr_stub(int fd, const char *buf, size_t len)
 {
+  if (wshort && len > 1) { size_t k; wshort = wshort * 1103515245u + 12345u; k = 1 + (wshort >> 16) % 7; if (k < len) len = k; }
   if (wout_n + len + 1 > wout_cap) { wout_cap = (wout_n + len + 1) * 2; wout = realloc(wout, wout_cap); }
   memcpy(wout + wout_n, buf, len); wout_n += len;
   return len;
